@@ -1,7 +1,6 @@
 package object
 
 import (
-	"bufio"
 	"bytes"
 	"fmt"
 	"regexp"
@@ -9,6 +8,7 @@ import (
 	"strings"
 	"time"
 
+	"github.com/JunNishimura/Goit/internal/fsutil"
 	"github.com/JunNishimura/Goit/internal/sha"
 )
 
@@ -67,7 +67,7 @@ func NewCommit(o *Object) (*Commit, error) {
 	}
 
 	buf := bytes.NewReader(o.Data)
-	scanner := bufio.NewScanner(buf)
+	scanner := fsutil.NewLineScanner(buf)
 	for scanner.Scan() {
 		text := scanner.Text()
 		splitText := strings.SplitN(text, " ", 2)
